@@ -165,8 +165,8 @@ def oracle_c06(sim) -> None:
                 ctx.violate("C06", "reply_not_recognised", op.code, f"{op.frame}: reply awaited but the echo was returned")
             else:
                 cls = sim.foreign_frames.get(got, "unknown")
-                if cls == "requester":
-                    ctx.probe("returned_reply_to_other_requester")
+                if cls in ("requester", "rq_other"):
+                    ctx.probe("returned_" + cls + "_collision")
                 else:
                     ctx.violate("C06", "near_miss_taken", cls, f"{op.frame}: returned {got!r} (a {cls} near-miss)")
         elif kind == "perr":
